@@ -21,7 +21,7 @@ from mc.checks import rules_common as R
 
 PROPERTY = "C08"
 LEVEL = "exploration"
-RULE = ("cases = every (expression, position, placement) triple over 56 ill-typed/partial/lazily failing transaction expressions x 10 positions x 3 placements, "
+RULE = ("cases = every (expression, position, placement) triple over 59 ill-typed/partial/lazily failing transaction expressions x 10 positions x 3 placements, "
         "and every (filter, kind, placement) triple over 14 view expressions x 3 kinds x 3 placements (thorough adds all ordered pairs of two bad "
         "rules); each case classifies 10 transactions (4 merchants for views) through 3 entry points. non-trivial = cases whose file the loader "
         "accepts and whose expression raises for at least one item; triples distinct by construction")
@@ -30,6 +30,8 @@ ASSUMPTIONS = ["'fails for an item' is decided by evaluating the expression alon
                "files the loader rejects are outside the property and only counted"]
 
 BAD = [
+    # a divisor that is an empty string / an empty list / None is not zero: the expression fails
+    'amount / extract("(QQQ)") < 5000', 'amount % [r for r in orders if r.amount > 100000] == 0', 'amount / next((r.nope for r in orders if false), None) >= 0',
     'contains(5)', 'amount > "x"', 'description + 1', '-description', 'regex("(")', 'regex_replace(description, "(", "")', 'extract("(")',
     'field.nope == 1', 'nope', 'nope_fn(1)', 'next(r for r in orders if false)', 'min(r.amount for r in orders if false)', 'orders[99]',
     'orders[0].nope', 'sum(r.item for r in orders)', 'len(amount)', 'split("-", "a")', 'substring("a", 1)', 'date > 5', 'date > "soon"',
@@ -89,6 +91,9 @@ def gen_cases(tier):
     for b in range(len(CSV_BAD_ROWS)):
         for pl in PLACEMENTS:
             yield {"kind": "csvrules", "bad": b, "placement": pl}
+    for b in range(len(CSV_TAGBAD)):
+        for pl in PLACEMENTS:
+            yield {"kind": "csvtags", "tagbad": b, "placement": pl}
 
 
 # ------------------------------------------------------------------------------------------------ rules files
@@ -154,7 +159,14 @@ def build(exprs, positions, placement, remove=False):
     return R.render_file(pre, rules)
 
 
+# expressions that fail for EVERY transaction by construction (the divisor is '' / [] / None): known independently of the evaluator
+ALWAYS_FAIL = {'amount / extract("(QQQ)") < 5000', 'amount % [r for r in orders if r.amount > 100000] == 0',
+               'amount / next((r.nope for r in orders if false), None) >= 0'}
+
+
 def fails_alone(expr, t):
+    if expr in ALWAYS_FAIL:
+        return True
     from tally.expr_parser import evaluate_transaction
     try:
         evaluate_transaction(expr, R.txn_dict(t), None, copy.deepcopy(ORDERS))
@@ -349,6 +361,9 @@ def check_views(case):
 # ------------------------------------------------------------------------------------------------ legacy CSV rule files
 CSV_BAD_ROWS = ["COSTCO (GAS,BadParen,Bad,B,t", "*STAR,BadStar,Bad,B,", "UBER[,BadBracket,Bad,B,", "(?P<n>x)(?P<n>y),BadGroup,Bad,B,", "NETFLIX\\,BadEscape,Bad,B,",
                 "contains(,BadExpr,Bad,B,", "field.nope == 1,NoField,Bad,B,t", "amount > \"x\",BadType,Bad,B,"]
+# a valid categorising row whose Tags cell holds an entry that fails (lazily or at once) for every / some transactions: only that tag is lost
+CSV_TAGBAD = ["NETFLIX,NetGen,Subs,Streaming,{(c for c in field.flags)}|keep", "UBER,UberBad,Transport,Ride,{1 / description}|keep2",
+              "NETFLIX,NetField,Subs,Streaming,{field.nope}|keep3"]
 CSV_GOOD = ["NETFLIX,Netflix,Subs,Streaming,video", "UBER,Uber,Transport,Ride,", "COFFEE[amount<10],Coffee,Food,Cafe,small"]
 
 
@@ -376,6 +391,32 @@ def run_csvrules(text):
     return out
 
 
+def check_csvtags(case):
+    row = CSV_TAGBAD[case["tagbad"]]
+    cells = row.split(",")
+    keep = [t for t in cells[4].split("|") if not t.startswith("{")]
+    reduced_row = ",".join(cells[:4] + ["|".join(keep)])
+    head = "Pattern,Merchant,Category,Subcategory,Tags\n"
+    place = {"first": 0, "middle": 1, "last": len(CSV_GOOD)}[case["placement"]]
+    full_rows, red_rows = list(CSV_GOOD), list(CSV_GOOD)
+    full_rows.insert(place, row)
+    red_rows.insert(place, reduced_row)
+    full, red = run_csvrules(head + "\n".join(full_rows) + "\n"), run_csvrules(head + "\n".join(red_rows) + "\n")
+    viol, evals = [], 0
+    text = head + "\n".join(full_rows) + "\n"
+    if isinstance(full, dict) or isinstance(red, dict):
+        viol.append({"kind": "exception-escapes-classification", "detail": {"entry": "legacy CSV rules", "file": text, "exception": str(full if isinstance(full, dict) else red)[:200]}})
+    else:
+        for t, a, b in zip(TXNS, full, red):
+            evals += 1
+            if "EXCEPTION" in a:
+                viol.append({"kind": "exception-escapes-classification", "detail": {"entry": "legacy CSV rules", "file": text, "txn": t, "exception": a["EXCEPTION"]}})
+            elif dict(a, tags=sorted(a.get("tags", []))) != dict(b, tags=sorted(b.get("tags", []))):
+                viol.append({"kind": "failing-element-changes-outcome", "detail": {"entry": "legacy CSV rules (failing tag)", "file": text, "txn": t,
+                                                                                   "with_failing_tag": a, "without_it": b}})
+    return {"evals": evals, "nontrivial": 1, "outcomes": ["csv-tag-dropped" if not viol else "csv-tag-problem"], "violations": viol[:8], "sample_repr": {"file": text}}
+
+
 def check_csvrules(case):
     full, red = run_csvrules(csv_text(case["bad"], case["placement"], False)), run_csvrules(csv_text(case["bad"], case["placement"], True))
     viol, evals = [], 0
@@ -397,4 +438,6 @@ def check_csvrules(case):
 def check_case(case):
     if case.get("kind") == "csvrules":
         return check_csvrules(case)
+    if case.get("kind") == "csvtags":
+        return check_csvtags(case)
     return check_rules(case) if case["kind"] == "rules" else check_views(case)
